@@ -310,6 +310,7 @@ func (e *Engine) VerifyFunction(fn *ssa.Function, opts VerifyOpts) (u *Unit) {
 		for _, d := range fc.Defines {
 			env := x.specEnv(x.entry, nil)
 			env.locals = false
+			env.noAlts = true // assumed, not proved: witness alternatives would only enlarge the context
 			g, err := env.EvalBool(d.Expr)
 			if err != nil {
 				u.Errorf("%s: defines %q: %v", name, d.Text, err)
@@ -324,6 +325,7 @@ func (e *Engine) VerifyFunction(fn *ssa.Function, opts VerifyOpts) (u *Unit) {
 		for _, rq := range fc.Requires {
 			env := x.specEnv(x.entry, nil)
 			env.locals = false
+			env.noAlts = true
 			g, err := env.EvalBool(rq.Expr)
 			if err != nil {
 				u.Errorf("%s: requires %q: %v", name, rq.Text, err)
